@@ -12,11 +12,13 @@
   whenever its table is empty; a server answers `find_node`; the first node of a network adds the
   requester; the joiner adds whoever answers; a lookup whose requests all expired is done (so an
   unreachable bootstrap list cannot hang: C06).  What is missing is the composition over a whole
-  network (a multi-node model with message delivery), which the `net` stream observes.
+  network (a multi-node model with message delivery), which the `mnet` stream observes — except the
+  20-server clause, proved on the lookup's history (`upto20_every_reachable_server_queried_partial`).
 -/
 import MainlineModel.Props.C06
 import MainlineModel.Props.C14
 import MainlineModel.Model.Net
+import MainlineModel.Props.C07
 namespace Mainline.Props.C13
 open Mainline Mainline.Actor
 
@@ -176,5 +178,22 @@ theorem unreachable_bootstrap_ends_partial (q : IterQuery) (sock : Inflight) (hi
     rw [← he]
     exact C06.expired_not_inflight sock hi r hr now (hexp r hr he)
   · exact C06.absent_not_inflight sock hi tid now hlt (fun r hr he => hex ⟨r, hr, he⟩)
+
+
+/-! ### "with up to 20 servers a lookup started on any node queries every server" -/
+
+/-- **The 20-server clause, on the lookup's history** (proved in `Props/C07.lean`): in a loss-free
+    honest network of at most 20 nodes, a lookup that ends closed has queried every node reachable,
+    through the servers' answers, from any address it queried — every server, when the knows-graph
+    is strongly connected and the lookup queried at least one of them.  `_partial`: the statement is
+    about the lookup's operations (`C07.lrun`); that the actor applies exactly those operations is
+    the correspondence check's job, and loss-free delivery is a hypothesis. -/
+theorem upto20_every_reachable_server_queried_partial (U : Id → Addr → Prop) (hU : C07.Honest U) (univ : List Id)
+    (huniv : ∀ i a, U i a → i ∈ univ) (hsmall : univ.length ≤ Constants.K)
+    (q0 : IterQuery) (h0 : C07.CandOk U q0) (ops : List C07.LOp) (hops : C07.AllIn U (C07.listed ops))
+    (hcl : C07.Closed (C07.lrun q0 ops)) (answers : Addr → Option (List Node))
+    (hloss : C07.LossFree answers q0 ops) :
+    ∀ a b, a ∈ (C07.lrun q0 ops).visited → C07.Reaches answers a b → b ∈ (C07.lrun q0 ops).visited :=
+  C07.small_network_reachable_queried U hU univ huniv hsmall q0 h0 ops hops hcl answers hloss
 
 end Mainline.Props.C13
